@@ -263,6 +263,9 @@ func run(p *hx.Plan) []hx.Event {
 		switch op {
 		case "boot", "restart":
 			if e.inc != nil {
+				if e.w.Alive(e.inc.Epoch) { // a restart of a live incarnation = crash at a quiescent point
+					e.w.Kill()
+				}
 				e.inc.Teardown()
 				e.inc.Forget()
 			}
